@@ -213,6 +213,9 @@ void _HexStrToRawDataWithDelimiter(const std::string &hex_str, std::vector<uint8
 void _HexStrToRawDataWithoutDelimiter(const std::string &hex_str, std::vector<uint8_t> &out)
 {
     auto start_pos = hex_str.find_first_not_of(" \t");
+    if (start_pos == std::string::npos)    //! 空字串或全是空白符，没有数据
+        return;
+
     auto end_pos = hex_str.find_last_not_of(" \t") + 1;
     for (size_t i = 0; ((i * 2) < (end_pos - start_pos)); ++i) {
         char h_char = hex_str.at(start_pos + 2 * i);
